@@ -300,6 +300,26 @@ def build_seq(d):
         acc.next <<= acc + m[r]
         o2 = pyrtl.Output(w, 'o2')
         o2 <<= acc
+    elif k == 'reg_wide_next':
+        # an 'r' net whose next-value wire is wider than the register (well formed: the register truncates)
+        a, c = pyrtl.Input(w, 'a'), pyrtl.Input(w, 'b')
+        wide = pyrtl.concat(a, c) + 1                      # 2w+1 bits
+        r = pyrtl.Register(w, 'r', reset_value=d.get('rv1'))
+        _net(pyrtl.working_block(), 'r', None, [wide], [r])
+        o = pyrtl.Output(w, 'o')
+        o <<= r
+        o2 = pyrtl.Output(w + 1, 'o2')
+        o2 <<= r + 1
+    elif k == 'two_mems':
+        # two independent memories, neither given initial contents: a word written to one must not show up in the other
+        m1 = pyrtl.MemBlock(bitwidth=w, addrwidth=2, name='ma', asynchronous=True)
+        m2 = pyrtl.MemBlock(bitwidth=w, addrwidth=2, name='mb', asynchronous=True)
+        wa_, wd, we1, we2, ra = pyrtl.Input(2, 'wa'), pyrtl.Input(w, 'wd'), pyrtl.Input(1, 'we1'), pyrtl.Input(1, 'we2'), pyrtl.Input(2, 'ra')
+        m1[wa_] <<= pyrtl.MemBlock.EnabledWrite(wd, we1)
+        m2[wa_] <<= pyrtl.MemBlock.EnabledWrite(~wd, we2)
+        o1, o2 = pyrtl.Output(w, 'o1'), pyrtl.Output(w, 'o2')
+        o1 <<= m1[ra]
+        o2 <<= m2[ra]
     else:
         raise ValueError(k)
     return pyrtl.working_block()
@@ -308,7 +328,7 @@ def build_seq(d):
 def seq_cases(widths=(1, 4)):
     out = []
     for w in widths:
-        for k in ('chain', 'swap', 'reg_out', 'counter', 'mem_rdw', 'mem_2w', 'rom_reg', 'mem_reg_addr'):
+        for k in ('chain', 'swap', 'reg_out', 'counter', 'mem_rdw', 'mem_2w', 'rom_reg', 'mem_reg_addr', 'reg_wide_next', 'two_mems'):
             out.append({'fam': 'SEQ', 'kind': k, 'w': w})
         out.append({'fam': 'SEQ', 'kind': 'chain', 'w': w, 'rv1': 1, 'rv2': (1 << w) - 1})
         out.append({'fam': 'SEQ', 'kind': 'reg_out', 'w': w, 'rv1': (1 << w) - 1})
